@@ -57,7 +57,10 @@ func (df *DataFrame) Resample(datetimeColumn string, freq string, aggFunc func([
 	grouped := make(map[time.Time]map[string][]any)
 	for i := 0; i < df.Nrows(); i++ {
 		row, _ := df.Row(i)
-		datetime := row[datetimeColumn].(time.Time)
+		datetime, ok := row[datetimeColumn].(time.Time)
+		if !ok {
+			return nil, fmt.Errorf("value '%v' in column '%s' (row %d) is not a time.Time", row[datetimeColumn], datetimeColumn, i)
+		}
 		bucket := truncateToFrequency(datetime, freq)
 		if _, exists := grouped[bucket]; !exists {
 			grouped[bucket] = make(map[string][]any)
